@@ -121,7 +121,7 @@ namespace FM
 		Channel4* csmch;
 		
 
-		static  uint32 lfotable[8];
+		uint32 lfotable[8];			// per chip: depends on this chip's clock/rate ratio
 	
 	private:
 		void	TimerA();
